@@ -580,7 +580,7 @@ func c03FoldTable(c *Check, pool *NodePool) {
 }
 
 func runC03(c *Check) {
-	c.Rule = "expression trees / statement skeletons / minifier trigger patterns with side-effect probes and boundary-grid literals, x 8 minify flag subsets (keep-names, esm, iife) executed in V8 against the unminified input; complete constant-folding table (operators x grid^2) compared with V8's own evaluation; define/pure/drop cases against generator-side references; distinct = distinct esbuild outputs"
+	c.Rule = "expression trees / statement skeletons / minifier trigger patterns with side-effect probes and boundary-grid literals, x 8 minify flag subsets (keep-names, esm, iife) executed in V8 against the unminified input; complete constant-folding table (operators x grid^2) compared with V8's own evaluation; define/pure/drop cases against generator-side references; distinct = distinct esbuild outputs; operator x operator x imported-constant leaves bundled with a virtual constants module (late folding after cross-module inlining)"
 	c.Assump = []string{"documented minifier assumptions are not generated: no function .name/.toString observation without keep-names, no TDZ observation, probes are the only side effects, property reads on parameters are pure only when the parameter is a plain object (universal proxies log every access and so also check that no access is dropped or duplicated)", "V8 (Node 20) is the reference semantics"}
 	pool := NewNodePool("")
 	defer pool.Close()
